@@ -305,13 +305,50 @@ fn main() {
         return;
     }
 
+
+    // ---- corpus first: minimised past disagreements, `<driver request> TAB <source>` per line
+    {
+        let dir = concat!(env!("CARGO_MANIFEST_DIR"), "/../corpus/C09");
+        let mut reqs = vec![];
+        let mut srcs = vec![];
+        if let Ok(rd) = std::fs::read_dir(dir) {
+            let mut files: Vec<_> = rd.filter_map(|e| e.ok()).map(|e| e.path()).collect();
+            files.sort();
+            for f in files {
+                if let Ok(text) = std::fs::read_to_string(&f) {
+                    for line in text.lines() {
+                        if line.starts_with('#') || !line.contains('\t') {
+                            continue;
+                        }
+                        let mut it = line.splitn(2, '\t');
+                        reqs.push(it.next().unwrap().to_string());
+                        srcs.push(it.next().unwrap().to_string());
+                    }
+                }
+            }
+        }
+        let resp = run_driver(&args.driver, &reqs);
+        for i in 0..reqs.len() {
+            let rust = Interp::new().eval(&srcs[i]).class();
+            rep.case(&srcs[i], true);
+            rep.arm("corpus");
+            let parts: Vec<&str> = resp[i].split('\t').collect();
+            let full = format!("{}\nrequest: {}", srcs[i], reqs[i]);
+            if parts.len() < 2 {
+                rep.judge("corpus", &full, &rust, &resp[i], &resp[i]);
+            } else {
+                rep.judge("corpus", &full, &rust, parts[0], parts[1]);
+            }
+        }
+    }
+
     let keys: Vec<Elem> = key_pool().iter().filter_map(|s| mk(&interp, s)).collect();
     let bad: Vec<Elem> = bad_keys().iter().filter_map(|s| mk(&interp, s)).collect();
     let vals: Vec<Elem> = value_pool().iter().filter_map(|s| mk(&interp, s)).collect();
     if keys.len() != key_pool().len() || bad.len() != bad_keys().len() {
         rep.notes.push(format!("some pool keys did not evaluate: {} of {}", keys.len(), key_pool().len()));
     }
-    let (n_seq, max_ops) = if args.tier == "thorough" { (12_000usize, 40usize) } else { (500usize, 40usize) };
+    let (n_seq, max_ops) = if args.tier == "thorough" { (6_000usize, 40usize) } else { (500usize, 40usize) };
     rep.rule = format!(
         "{} random operation sequences (1-3 dict variables built by literals with/without default, then up to {} ops \
          drawn from d[k]=v, d[k] f= v (4 operators incl. a raising one), remove, |., -., ||, &&, --, ||+, insert, set, dict, \
